@@ -58,7 +58,7 @@ RunResult run_plan(const Plan &plan, Stats *total, bool want_allocs) {
         simrt::HeapViolation hv = simrt::heap_take_violation(d, sizeof d);
         if (hv != simrt::HV_NONE) {
             c.site = "teardown";
-            set_viol(c, hv == simrt::HV_DOUBLE_FREE ? "double_free" : hv == simrt::HV_INVALID_FREE ? "invalid_free" : "form_mismatch", d);
+            set_viol(c, hv == simrt::HV_DOUBLE_FREE ? "double_free" : hv == simrt::HV_INVALID_FREE ? "invalid_free" : hv == simrt::HV_OVERRUN ? "out_of_bounds_write" : "form_mismatch", d);
             rr.step = (int)plan.ops.size();
         }
     }
